@@ -277,6 +277,7 @@ func (st *Stream) serve() {
 	var err error
 	if n.Handler != nil {
 		n.Handler(st)
+		st.FinishServer(nil)
 		return
 	}
 	switch st.Kind {
@@ -292,6 +293,9 @@ func (st *Stream) serve() {
 	}
 	st.FinishServer(err)
 }
+
+// SrvCtx returns the server-side stream context.
+func (st *Stream) SrvCtx() context.Context { return st.srvCtx }
 
 // FinishServer records the handler's return and tells the client.
 func (st *Stream) FinishServer(err error) {
